@@ -3302,8 +3302,16 @@ fn fresh_of_other_type(expected_int: bool, p: &E, rng: &mut Rng) -> (E, &'static
     let small = |rng: &mut Rng| lit(rng.range(0, 9));
     fn int_expr(rng: &mut Rng, x: &str, z: &str, depth: usize) -> (E, &'static str, bool) {
         let sub = |rng: &mut Rng| if depth == 0 { lit(rng.range(0, 9)) } else { int_expr(rng, x, z, depth - 1).0 };
-        match rng.below(14) {
+        match rng.below(16) {
             0 => (lit(rng.range(0, 99)), "literal", false),
+            14 | 15 => {
+                // a chain of three or four operands of one class, no parentheses: `8 / 2 / 2`, `12 * 3 / 2`, `1 - 2 + 3 - 4`
+                let mul = rng.chance(1, 2);
+                let op = |rng: &mut Rng| if mul { 2 + rng.below(2) as u8 } else { rng.below(2) as u8 };
+                let mut e = bin(op(rng), lit(rng.range(1, 99)), lit(rng.range(1, 9)));
+                for _ in 0..(1 + rng.below(2)) { e = bin(op(rng), e, lit(rng.range(1, 9))); }
+                (e, "chain-of-three-or-more", false)
+            }
             1 | 2 | 3 => (E::Neg(Box::new(sub(rng))), "negation", false),
             4 => (E::Neg(Box::new(paren(bin(rng.below(3) as u8, lit(rng.range(0, 9)), lit(rng.range(0, 9)))))), "negation", false),
             5 => (bin(rng.below(2) as u8, sub(rng), sub(rng)), "sum", false),
